@@ -61,9 +61,9 @@ def gen_history(rng, budget, hw):
         elif r < 0.52 and live:
             q = rng.choice(live)
             live.remove(q)
-            ops.append({"op": "measure", "q": q, "inplace": False})
+            ops.append({"op": "measure", "q": q, "inplace": False, "flag": rng.choice(["bool", "bool", "int", "np"])})
         elif r < 0.57 and live:
-            ops.append({"op": "measure", "q": rng.choice(live), "inplace": True})
+            ops.append({"op": "measure", "q": rng.choice(live), "inplace": True, "flag": rng.choice(["bool", "bool", "int", "np"])})
         elif r < 0.66 and live:
             q = rng.choice(live)
             live.remove(q)
@@ -292,7 +292,14 @@ def run_case(ctx, case):
                 elif k == "measure":
                     q = handles[o["q"]]
                     qid = q.qubit_id
-                    q.measure(inplace=o["inplace"])
+                    # (the keep-or-release flag as a program has it: a bool, the integer 0 / 1, an element of a numpy mask)
+                    flag = o["inplace"]
+                    if o.get("flag") == "int":
+                        flag = int(flag)
+                    elif o.get("flag") == "np":
+                        import numpy as _np
+                        flag = _np.bool_(flag)
+                    q.measure(inplace=flag)
                     if not o["inplace"]:
                         released_ids.add(qid)
                 elif k == "free":
